@@ -440,6 +440,11 @@ CORPUS = [
     "from Reduino.Communication import SerialMonitor\nmon = SerialMonitor(9600)\nxs = [1, 2, 3]\nname = 'abc'\nk = 1\nmon.write(len(name) + len(xs) + xs[k])\nfor i in range(1, 3):\n    mon.write(i)\n",
     "from Reduino.Communication import SerialMonitor\nmon = SerialMonitor(9600)\nys = [i * 2 for i in range(3)]\nys.append(4)\nmon.write(len(ys))\nys = 5\n",
     "from Reduino.Communication import SerialMonitor\nmon = SerialMonitor(9600)\nzs = [1.5, 2.5]\nmon.write(zs[0])\ndef g(*args):\n    return 1\nmon.write(g(1))\nfor i in range(2, 9, 3):\n    pass\n",
+    # helpers whose return statements infer several different types (whatever the transpiler decides - a join, a default, an error - it decides
+    # it the same way in every process)
+    "from Reduino.Communication import SerialMonitor\nmon = SerialMonitor(9600)\ndef pick(c):\n    if c > 0:\n        return [1, 2]\n    return False\nv = pick(0)\nmon.write(v)\n",
+    "from Reduino.Communication import SerialMonitor\nmon = SerialMonitor(9600)\ndef pick(c):\n    if c > 2:\n        return [1, 2]\n    if c > 1:\n        return [True]\n    if c > 0:\n        return [1.5]\n    return True\nv = pick(1)\nw = pick(3)\n",
+    "from Reduino.Communication import SerialMonitor\nmon = SerialMonitor(9600)\ndef kind(c):\n    if c > 1:\n        return True\n    if c > 0:\n        return 2\n    return 1.5\ndef word(c):\n    if c > 0:\n        return 'a'\n    return ['a']\na = kind(1)\nb = kind(2)\nmon.write(a)\n",
 ]
 
 # one identifier in every role: a later script that re-uses a name of an earlier script for another kind of object must not see the earlier role
